@@ -329,6 +329,15 @@ pub fn gen_zone(r: &mut Rng, o: ZoneOpts) -> ZoneSpec {
                 }
             }
         }
+        // a pair of transitions exactly at a leap record and one second later (ties between results)
+        if !trans.is_empty() && r.chance(1, 4) && ntypes >= 2 {
+            let (lt, _) = leaps[r.usize(leaps.len())];
+            let base = trans.last().unwrap().0;
+            if lt > base.saturating_add(1) {
+                trans.push((lt, r.usize(ntypes) as u8));
+                trans.push((lt + 1, r.usize(ntypes) as u8));
+            }
+        } else
         // some transitions right at / around leap records
         if !trans.is_empty() && r.chance(1, 2) {
             let (lt, _) = leaps[r.usize(leaps.len())];
@@ -461,6 +470,18 @@ pub fn fields_at(t: i64, off: i64, ns: u32) -> Option<Fields> {
 }
 
 fn random_fields(r: &mut Rng) -> Fields {
+    if r.chance(1, 8) {
+        // corner dates, also in the first and last representable years
+        let y = match r.below(6) {
+            0 => i32::MAX,
+            1 => i32::MIN,
+            2 => i32::MAX - 1,
+            3 => [2000, 1900, 2100, 2024, 0, -1, 400][r.usize(7)],
+            _ => r.range(1900, 2100) as i32,
+        };
+        let (mo, d, h, mi, s) = [(12u8, 31u8, 23u8, 59u8, 60u8), (12, 31, 23, 59, 59), (1, 1, 0, 0, 0), (2, 29, 12, 0, 0), (2, 28, 23, 59, 60), (6, 30, 23, 59, 60), (3, 1, 0, 0, 0), (12, 31, 0, 0, 0), (1, 1, 23, 59, 60)][r.usize(9)];
+        return Fields { y, mo, d, h, mi, s, ns: [0u32, 999_999_999, 1][r.usize(3)] };
+    }
     let y = match r.below(10) {
         0 => i32::MAX - r.below(3) as i32,
         1 => i32::MIN + r.below(3) as i32,
@@ -1178,6 +1199,19 @@ pub fn gen_c17(seed: u64) -> Scenario {
             sc.contents.push(Content::Gen(z));
         }
         ops.push(Op::Decode { cid: i, fault: None, slot: i });
+    }
+    // a zone in which one local time has hundreds (rarely: more than 65 536) of results
+    if r.chance(1, 40) {
+        let (n, d) = if r.chance(1, 60) { (140_000usize, 140_000i32) } else { ([300usize, 600, 1200][r.usize(3)], [520i32, 700, 2000][r.usize(3)]) };
+        sc.contents.push(Content::PingPong { n, d });
+        let cid = sc.contents.len() - 1;
+        ops.push(Op::Decode { cid, fault: None, slot: 5 });
+        for _ in 0..2 + r.usize(3) {
+            let t = crate::spec::PINGPONG_T0 + (n as i64) / 2 + r.range(-3, 3);
+            if let Some(f) = fields_at(t, if r.chance(1, 2) { 0 } else { d as i64 / 2 }, 0) {
+                ops.push(Op::FindN { z: ZRef::P(5), f, n: [0usize, 1, 3, 5][r.usize(4)], buf: r.usize(2) });
+            }
+        }
     }
     let nq = 10 + r.usize(30);
     for _ in 0..nq {
